@@ -611,6 +611,7 @@ static void gen_C18(const std::string &tier, uint64_t seed, long idx, Scn &s) {
   s.i["cm"] = 1 + (long)g.below(4);
   long ch = (long)CHB();
   long chunks = T + (long)g.below(2 * T + 1);           // >= T chunks: every stream gets at least one
+  if (ch == 16) chunks += T;                              // one block per chunk: every stream needs two blocks (see run_C18)
   s.i["len"] = is_prod() ? ch * 2 + 5 : chunks * ch - (long)g.below(16);
   s.i["ptype"] = g.chance(0.5) ? 2 : 0;                 // equal plaintext chunks half of the time
   if (is_prod()) { s.i["ptype"] = 2; s.i["sio"] = 0; s.i["inb"] = -1; s.i["outb"] = -1; }
@@ -678,6 +679,9 @@ static Verdict run_C18(const Scn &s) {
   // from the recovered IV, must reproduce all of its chunks; otherwise this run says nothing about C18.
   for (int st = 0; st < T; st++) {
     Bytes sp, sc;
+    size_t sblocks = 0;
+    for (size_t j = (size_t)st; j < nchunks; j += (size_t)T) sblocks += std::min(CH, PP.size() - j * CH) / 16;
+    if (sblocks < 2) return skip("stream-shorter-than-two-blocks(IV recovery cannot be validated)");
     for (size_t j = (size_t)st; j < nchunks; j += (size_t)T) {
       size_t off = j * CH, n = std::min(CH, PP.size() - off);
       sp.insert(sp.end(), PP.begin() + off, PP.begin() + off + n);
